@@ -1,4 +1,4 @@
-import Rawr.Proofs.GenKing
+import Rawr.Proofs.GenCastle5
 /-!
 # C01, first classes: king steps (and castling, below)
 
@@ -11,6 +11,17 @@ either a king step (target not an own piece) or a castling move (encoded "king t
   `C08d_isSafe` (`is_safe` on the occupancy with the king lifted = not attacked with the king lifted)
   and the fact that what stands on the target square (a captured piece, or the king itself after the
   move) does not influence whether that square is attacked.
+* `C01_castleOk`: the generator's castling test `castleOk` (right, not in check, castling rook not
+  `hpinned`, path empty apart from king and rook, king path not attacked) *equals*
+  `Spec.castleLegal (abs p) ks` — including the `hpinned` clause: under the other conditions the rook
+  is horizontally pinned iff the king is attacked on its target square on the castled board
+  (`Proofs/GenCastle3–5.lean`).
+* `C01_castling`: the generated king-tagged moves onto an own piece ("king takes own rook") are exactly
+  the legal castlings; `C01_castling_moves` says the same through `decodeMove` / `Spec.legalMoves`.
+* The literal reading "`gm 5 ksq rookSq 6` is generated iff `castleLegal`" is FALSE when the right is
+  absent: `rookSq` is then an arbitrary back-rank square (`cf0 = 7` by default) and an ordinary king step
+  may go there (`C01_castling_literal_false`). That is why the castling class is delimited by
+  `p.c0.isSet dst`, as in `decodeMove`.
 -/
 namespace Rawr
 open Spec Att
@@ -48,7 +59,7 @@ theorem C01_king_steps_abs (p : Position) (hV : ValidPos p = true) (b : Nat) (pr
     rw [absSq_absSq] at this
     exact this
 
-/-! ## non-vacuity -/
+/-! ## a test position -/
 
 /-- white Kg1 Rf1 Nf3 pawns g2 h2; black Kg8 Qd4 (checking on the diagonal d4–g1) Bb7 pawn f7;
 White to move. The king may go to h1 but not to f2. -/
@@ -60,6 +71,148 @@ def kingPos : Position :=
       p0 := (bit 14 ||| bit 15 ||| bit 53), p1 := bit 21, p2 := bit 49, p3 := bit 5, p4 := bit 27,
       p5 := (bit 6 ||| bit 62) }
   { q with hash := q.calculateHash }
+
+/-! ## castling -/
+
+/-- the castling rook's square of side `ks` (king side = `true`), mover-relative. -/
+def castleRookSq (p : Position) (ks : Bool) : Nat := fromCoords (if ks then p.cf0 else p.cf1) 0
+
+/-- C01, castling class: the generator's test is the rule. -/
+theorem C01_castleOk (p : Position) (hV : ValidPos p = true) (ks : Bool) :
+    castleOk p (prelude p) (if ks then p.usK else p.usQ) (castleRookSq p ks)
+        (if ks then 6 else 2) (if ks then 5 else 3)
+      = Spec.castleLegal (abs p) ks := by
+  have := castleOk_eq_castleLegal hV ks
+  cases ks <;> exact this
+
+/-- C01, castling class: a king-tagged move onto an own piece is generated iff it is the castling move
+of a side for which `Spec.castleLegal` holds. -/
+theorem C01_castling (p : Position) (hV : ValidPos p = true) (to : Nat) :
+    (gm 5 (prelude p).ksq to 6 ∈ moveGenerator p ∧ p.c0.isSet to = true) ↔
+      ∃ ks, to = castleRookSq p ks ∧ Spec.castleLegal (abs p) ks = true := by
+  have hR := rook_of_right hV
+  have hK := C01_castleOk p hV true
+  have hQ := C01_castleOk p hV false
+  simp only [if_true, Bool.false_eq_true, if_false] at hK hQ
+  rw [mem_gen_king]
+  constructor
+  · rintro ⟨h | ⟨hc, _, rfl⟩ | ⟨hc, _, rfl⟩, hown⟩
+    · exfalso
+      rw [prelude_ksq] at h
+      have F := kingFacts hV
+      have := ((mem_kingTargetsSafe p _ F.k64 to).mp h.2).2.2.1
+      unfold BB.isSet at hown
+      rw [this] at hown; cases hown
+    · exact ⟨true, rfl, by rw [← hK]; exact hc⟩
+    · exact ⟨false, rfl, by rw [← hQ]; exact hc⟩
+  · rintro ⟨ks, rfl, hl⟩
+    cases ks
+    · rw [← hQ] at hl
+      refine ⟨Or.inr (Or.inr ⟨hl, rfl, rfl⟩), ?_⟩
+      have := hR.2 (castleOk_right hl)
+      rw [BitVec.getLsbD_and, Bool.and_eq_true] at this
+      exact this.1
+    · rw [← hK] at hl
+      refine ⟨Or.inr (Or.inl ⟨hl, rfl, rfl⟩), ?_⟩
+      have := hR.1 (castleOk_right hl)
+      rw [BitVec.getLsbD_and, Bool.and_eq_true] at this
+      exact this.1
+
+theorem mem_legal_castle (P : APos) (ks : Bool) :
+    Spec.Move.castle ks ∈ Spec.legalMoves P ↔ Spec.castleLegal P ks = true := by
+  unfold Spec.legalMoves
+  rw [List.mem_append]
+  constructor
+  · rintro (h | h)
+    · exfalso
+      rw [List.mem_filter, List.mem_flatMap] at h
+      obtain ⟨⟨s, _, hm⟩, _⟩ := h
+      exact pseudoFrom_src P s _ hm
+    · rw [List.mem_map] at h
+      obtain ⟨ks', hm, e⟩ := h
+      injection e with e
+      subst e
+      exact (List.mem_filter.mp hm).2
+  · intro h
+    right
+    rw [List.mem_map]
+    exact ⟨ks, List.mem_filter.mpr ⟨by cases ks <;> simp, h⟩, rfl⟩
+
+/-- the castling moves through the move decoding: generated "king takes own rook" moves decode to the
+legal `Move.castle`s of the rules, side for side. -/
+theorem C01_castling_moves (p : Position) (hV : ValidPos p = true) (to : Nat) :
+    (gm 5 (prelude p).ksq to 6 ∈ moveGenerator p ∧ p.c0.isSet to = true) ↔
+      ∃ ks, to = castleRookSq p ks ∧ decodeMove p ⟨(prelude p).ksq, to, 6⟩ = Spec.Move.castle ks ∧
+        Spec.Move.castle ks ∈ Spec.legalMoves (abs p) := by
+  rw [C01_castling p hV to]
+  constructor
+  · rintro ⟨ks, rfl, hl⟩
+    refine ⟨ks, rfl, ?_, (mem_legal_castle _ _).mpr hl⟩
+    have hr : rightUs p ks = true := by
+      cases hr : rightUs p ks
+      · rw [castleLegal_no_right ks hr] at hl; cases hl
+      · rfl
+    have CF := castleFacts hV ks hr
+    have hown : p.c0.isSet (castleRookSq p ks) = true := by
+      have hR := rook_of_right hV
+      unfold rightUs at hr
+      unfold castleRookSq
+      cases ks
+      · have := hR.2 hr
+        rw [BitVec.getLsbD_and, Bool.and_eq_true] at this; exact this.1
+      · have := hR.1 hr
+        rw [BitVec.getLsbD_and, Bool.and_eq_true] at this; exact this.1
+    unfold decodeMove
+    simp only [hown, if_true]
+    congr 1
+    have hside := CF.side
+    rw [prelude_ksq]
+    unfold castleRookSq rookFile at *
+    cases ks
+    · simp only [Bool.false_eq_true, if_false, fromCoords_zero] at hside ⊢
+      simp only [decide_eq_false_iff_not]; omega
+    · simp only [if_true, fromCoords_zero] at hside ⊢
+      simp only [decide_eq_true_eq]; omega
+  · rintro ⟨ks, rfl, _, hl⟩
+    exact ⟨ks, rfl, (mem_legal_castle _ _).mp hl⟩
+
+/-- the literal reading without the "onto an own piece" clause is false: in `kingPos` no right is
+present, `cf0 = 7`, and the king step g1–h1 is the generated move `gm 5 6 7 6`. -/
+theorem C01_castling_literal_false :
+    ValidPos kingPos = true ∧
+    gm 5 (prelude kingPos).ksq (castleRookSq kingPos true) 6 ∈ moveGenerator kingPos ∧
+    Spec.castleLegal (abs kingPos) true = false := by decide +kernel
+
+/-- non-vacuity for castling: white Ke1 Ra1 Rh1, black Ke8 Rb8 (attacks b1 only: queen-side castling
+stays legal), both rights. -/
+def castlePos : Position :=
+  let q : Position :=
+    { Position.dflt with
+      c0 := (bit 4 ||| bit 0 ||| bit 7), c1 := (bit 60 ||| bit 57),
+      p3 := (bit 0 ||| bit 7 ||| bit 57), p5 := (bit 4 ||| bit 60),
+      usK := true, usQ := true, cf0 := 7, cf1 := 0 }
+  { q with hash := q.calculateHash }
+
+example : ValidPos castlePos = true := by decide +kernel
+example : Spec.castleLegal (abs castlePos) true = true ∧ Spec.castleLegal (abs castlePos) false = true ∧
+    gm 5 4 7 6 ∈ moveGenerator castlePos ∧ gm 5 4 0 6 ∈ moveGenerator castlePos := by decide +kernel
+
+/-- the `hpinned` clause at work (Chess960): white Kd1 (3), castling rook b1 (1), black Ra1 (0), black
+Ke8. Every other condition of queen-side castling holds (c1, d1 are not attacked: the rook on b1
+shields them), but after castling (Kc1, Rd1) the king would be attacked from a1. -/
+def pinPos : Position :=
+  let q : Position :=
+    { Position.dflt with
+      c0 := (bit 3 ||| bit 1), c1 := (bit 60 ||| bit 0),
+      p3 := (bit 1 ||| bit 0), p5 := (bit 3 ||| bit 60),
+      usQ := true, cf1 := 1 }
+  { q with hash := q.calculateHash }
+
+example : ValidPos pinPos = true := by decide +kernel
+example : (prelude pinPos).hpinned.isSet 1 = true ∧ Spec.castleLegal (abs pinPos) false = false ∧
+    gm 5 3 1 6 ∉ moveGenerator pinPos := by decide +kernel
+
+/-! ## non-vacuity -/
 
 example : ValidPos kingPos = true := by decide +kernel
 example : (prelude kingPos).ksq = 6 ∧ gm 5 6 7 6 ∈ moveGenerator kingPos ∧
@@ -77,5 +230,9 @@ example : gm 5 6 7 6 ∈ moveGenerator kingPosB ∧
 
 #print axioms C01_king_steps
 #print axioms C01_king_steps_abs
+#print axioms C01_castleOk
+#print axioms C01_castling
+#print axioms C01_castling_moves
+#print axioms C01_castling_literal_false
 
 end Rawr
